@@ -79,6 +79,7 @@ class Bus:
         self.fault_times = []
         self.max_frames = 150000    # a case that puts more on the bus is a runaway of the code under test
         self.runaway = None
+        self.delivered = []         # (t, node name, frame idx) for every delivery (who has seen what, when)
 
     def add(self, node):
         self.nodes.append(node)
@@ -122,6 +123,7 @@ class Bus:
         return fr
 
     def deliver(self, node, fr):
+        self.delivered.append((self.sim.now, node.name, fr.idx))
         try:
             node.on_frame(fr)
         except (engine.SimThreadKilled, engine.Runaway):
